@@ -79,6 +79,8 @@ def check_pair(a, b):
     if not (abs(rd.months) < 12 and abs(rd.hours) < 24 and abs(rd.minutes) < 60 and
             abs(rd.seconds) < 60 and abs(rd.microseconds) < 10 ** 6):
         v.append({'kind': 'not-normalised', 'rd': rd})
+    if rd.years * rd.months < 0:
+        v.append({'kind': 'years-and-months-of-opposite-sign', 'rd': rd})
     M = rd.years * 12 + rd.months
     Mr = ref.max_month_shift(a_dt.replace(tzinfo=None), b_dt.replace(tzinfo=None))
     if M != Mr:
